@@ -37,6 +37,11 @@ func (p *Prog) VerifyFunc(c *Contract) (res *FuncResult) {
 	}
 	vc := NewVC(p, fn, c)
 	vc.guards = p.guardMap()
+	for mu, fs := range vc.guards {
+		for _, f := range fs {
+			vc.guardOf[f] = mu
+		}
+	}
 	res.Script = vc.S
 	defer func() {
 		if r := recover(); r != nil {
@@ -65,6 +70,8 @@ func (p *Prog) VerifyFunc(c *Contract) (res *FuncResult) {
 	env := &SpecEnv{fr: fr, heap: vc.root, old: vc.root, block: fn.Blocks[0], idx: 0, bound: map[string]*Val{}, entryParams: true}
 	for _, rq := range c.Requires {
 		vc.S.Assert(env.evalBool(rq.E))
+		// requires held(x.mu): the caller holds the mutex
+		collectHeld(rq.E, env, fr.heldIn)
 	}
 	fr.run("true", vc.root)
 	// postconditions
@@ -202,7 +209,9 @@ func (vc *VC) modelVars(name string, v *Val, t types.Type, depth int) [][2]strin
 		if b, ok := u.Elem().Underlying().(*types.Basic); ok && b.Info()&types.IsInteger != 0 {
 			mem := vc.root.Get(vc.memName(u.Elem()))
 			for i := 0; i < 24; i++ {
-				out = append(out, [2]string{fmt.Sprintf("%s[%d]", name, i), sel(sel(mem, "(sl-base "+term+")"), add("(sl-off "+term+")", intLit64(int64(i))))})
+				el := sel(sel(mem, "(sl-base "+term+")"), add("(sl-off "+term+")", intLit64(int64(i))))
+				vc.S.decls = append(vc.S.decls, "(assert "+vc.rangeFact(el, u.Elem(), 0)+")") // type invariant of the element
+				out = append(out, [2]string{fmt.Sprintf("%s[%d]", name, i), el})
 			}
 		}
 	case *types.Array:
@@ -277,11 +286,42 @@ func (vc *VC) frameObligations(fr *Frame, c *Contract) {
 	}
 }
 
+func collectHeld(e Expr, env *SpecEnv, into map[string]bool) {
+	switch x := e.(type) {
+	case *Binary:
+		if x.Op == "&&" {
+			collectHeld(x.X, env, into)
+			collectHeld(x.Y, env, into)
+		}
+	case *CallE:
+		if id, ok := x.Fun.(*Ident); ok && id.Name == "held" && len(x.Args) == 1 {
+			func() {
+				defer func() { recover() }()
+				mv := env.addrOf(x.Args[0])
+				if mv.P != nil {
+					into[mv.P.Heap+"@"+mv.P.Ref] = true
+				}
+			}()
+		}
+	}
+}
+
 // guardMap collects `guarded <Type.mutexField>: f1, f2` declarations from all contracts.
 func (p *Prog) guardMap() map[string][]string {
 	out := map[string][]string{}
+	type gd struct{ pkg, g string }
+	var all []gd
 	for _, c := range p.CS.ByKey {
 		for _, g := range c.Guarded {
+			all = append(all, gd{c.Pkg, g})
+		}
+	}
+	for _, g := range p.CS.GuardDecls {
+		all = append(all, gd{g[0], g[1]})
+	}
+	for _, x := range all {
+		c := struct{ Pkg string }{x.pkg}
+		for _, g := range []string{x.g} {
 			// format: pkgpath.Type.mu: f1, f2
 			i := strings.Index(g, ":")
 			if i < 0 {
